@@ -24,7 +24,7 @@ def hx(b):
 
 class P(Prop):
     ID = "C15"
-    THEOREMS = ["C15_single_part_round_trip", "C15_single_part_domain", "C15_roundtrip_partial", "C15_F2_witness", "C15_status_line_shape", "C15_reject_unknown_status", "C15_reject_mismatched_phrase",
+    THEOREMS = ["C15_single_part_round_trip", "C15_single_part_domain", "C15_multi_part_round_trip", "C15_multi_part_domain", "C15_roundtrip_partial", "C15_F2_witness", "C15_status_line_shape", "C15_reject_unknown_status", "C15_reject_mismatched_phrase",
                 "C15_parse_needs_status_line", "C15_no_panic"]
     COQ_TARGETS = ["theories/Props/C15.vo", "theories/Extract.vo"]
     N_QUICK = 3000
@@ -124,7 +124,7 @@ class P(Prop):
         c = collections.Counter()
         for l, m in zip(cases, model):
             if m and " dom=" in m:
-                c["resprt:" + ("in-theorem-domain" if m.endswith("dom=1") else "outside")] += 1
+                c["resprt:" + ("in-single-part-theorem-domain" if m.endswith("dom=1") else "in-multi-part-theorem-domain" if m.endswith("dom=2") else "outside")] += 1
         return dict(c)
 
     def oracle(self, line, out):
